@@ -38,6 +38,7 @@ from typing import Any
 from ipv8.messaging.anonymization.payload import CellPayload
 from ipv8.messaging.lazy_payload import VariablePayload, vp_compile
 from ipv8.messaging.payload_headers import BinMemberAuthenticationPayload, GlobalTimeDistributionPayload
+from ipv8.messaging.serialization import Serializer
 
 from .. import core, fixtures
 from ..ref import c02_domain as dom
@@ -593,6 +594,65 @@ def _overlay_serializer_child(name: str, d: int, seed: int) -> dict:
     return out
 
 
+def fresh_serializer():  # noqa: ANN201
+    """A new Serializer object with the same packers as dom.serializer() (defaults + what the overlays register)."""
+    union = dom.serializer()
+    ser = Serializer()
+    have = set(ser.get_available_formats())
+    for name in union.get_available_formats():
+        if name not in have:
+            ser.add_packer(name, union.get_packer_for(name))
+    return ser
+
+
+def evaluate_after_failures(spec: dom.ClassSpec, descs: list) -> tuple[list, int]:
+    """
+    A Serializer's past must not matter: the first thing a *new* Serializer sees of this class is a damaged encoding
+    (every proper prefix; every prefix followed by ff bytes up to the original length), which it may reject in any way
+    it likes; the valid encoding offered next to the same Serializer must still decode to the original fields.
+    Also: a failed decode of the class as second payload of a datagram, then the valid one alone.
+    """
+    found: list[Finding] = []
+    n = 0
+    try:
+        enc = fresh_serializer().pack_serializable(spec.build(descs))
+    except Exception:  # noqa: BLE001
+        return found, n          # reported by the ordinary evaluation
+    damaged = [("cut@%d" % c, enc[:c]) for c in range(len(enc))]
+    damaged += [("cut@%d+ff" % c, enc[:c] + b"\xff" * (len(enc) - c)) for c in range(len(enc))]
+    for label, bad in damaged:
+        for via in ("single", "list"):
+            ser = fresh_serializer()
+            try:
+                if via == "single":
+                    ser.unpack_serializable(spec.cls, bad, 0)
+                else:
+                    ser.unpack_serializable_list([spec.cls], bad, 0)
+            except Exception:  # noqa: BLE001, S110
+                pass
+            n += 1
+            f = check_decoded_simple(spec, descs, enc, ser)
+            if f is not None:
+                found.append(Finding("decode-after-failed-decode", "any-class", via, None,
+                                     f"{spec.name}: a new Serializer first saw the damaged encoding {label} "
+                                     f"({_hex(bad)}) via unpack_serializable{'_list' if via == 'list' else ''}; the valid "
+                                     f"encoding {_hex(enc)} offered next: {f}"))
+                break
+        if found:
+            break
+    return found, n
+
+
+def check_decoded_simple(spec: dom.ClassSpec, descs: list, enc: bytes, ser) -> str | None:  # noqa: ANN001
+    try:
+        obj, end = ser.unpack_serializable(spec.cls, enc, 0)
+    except Exception as e:  # noqa: BLE001
+        return f"unpack_serializable raised {_exc(e)}"
+    probs: list = []
+    check_decoded(spec, descs, obj, end, len(enc), enc, ser, "after the failed decode", probs)
+    return None if not probs else "; ".join(p.what for p in probs[:2])
+
+
 def _order(replay: dict, size: int) -> tuple:
     text = json.dumps(replay, sort_keys=True)
     return (size, len(text), text)
@@ -630,6 +690,16 @@ def _worker(chunk: list) -> list:
                 res["evaluations"] += n
                 if found:
                     _merge(res["findings"], found, {"kind": "class-once", "spec": item[1]}, 0)
+            elif kind == "after-failure":
+                spec = dom.spec_by_key(item[1])
+                res["spec"] = item[1]
+                for descs in spec.representatives()[:item[2]]:
+                    found, n = evaluate_after_failures(spec, descs)
+                    res["instances"] += 1
+                    res["evaluations"] += n
+                    res["nontrivial"] += 1 if n else 0
+                    if found:
+                        _merge(res["findings"], found, {"kind": "after-failure", "spec": item[1], "values": descs}, 0)
             elif kind == "packer":
                 _, fmt, i = item
                 desc = dom.alphabet_for(fmt)[i]
@@ -689,6 +759,7 @@ def plan(ctx: core.Ctx) -> tuple[list, dict]:
         modes[key] = "full product" if work and work[0][0] == "full" else f"<= {b['d']} deviations from 2 bases"
         items.extend(("class", key, b["d"], ctx.seed, w) for w in work)
         items.append(("class-once", key))
+        items.append(("after-failure", key, 4 if ctx.thorough else 2))
     ser = dom.serializer()
     for fmt in ser.get_available_formats():
         if fmt in ("payload", "payload-list") or not wire.known(fmt):
@@ -901,6 +972,9 @@ def replay(ctx: core.Ctx, data: dict) -> list:
         _merge(findings, found, data, max(info["enc_len"], 0))
     elif kind == "class-once":
         found, _ = evaluate_class_once(dom.spec_by_key(data["spec"]))
+        _merge(findings, found, data, 0)
+    elif kind == "after-failure":
+        found, _ = evaluate_after_failures(dom.spec_by_key(data["spec"]), data["values"])
         _merge(findings, found, data, 0)
     elif kind == "packer":
         found, _ = evaluate_packer(data["format"], data["value"])
